@@ -96,6 +96,18 @@ same lines, they keep their last honest result.
   C11-r3m2 (cache key without part boundaries) led to repair 529e39b and the `cutA/cutB` parts of the
   certificate family. C18-r3m3 (Shuffle treats seed 0 as "no seed given" and seeds from the clock) was
   missed: the twins family now repeats a shuffle with the seeds 0, 1, -1 and the int64 extremes.
+* Round 4 (third day, after the byte-form repairs; 24 changes, eight properties, the builders asked to stay away
+  from what earlier rounds had touched): all reported. Two needed new scenarios first. C02-r4m1 (a BLS proof of
+  possession that was REJECTED is remembered and treated as valid at the next look-up, so a rogue-key aggregate
+  passes the second time): nothing configured a replica whose proof does not check out; the certificate family
+  got `cfg … pop=<id>:bad|none|swap<j>` and scripts that verify every kind of object naming such a replica twice
+  at every kind of verifier. C11-r4m1 (CreateQuorumCert stores the freshly combined signature in the cache as
+  valid): the cache scripts now let the verifying replica itself combine votes for ANOTHER block and verify the
+  result. Caught at once by the families added on the third day: C12-r4m1 (no length prefix for an empty batch)
+  and C02-r4m3 / C13-r4m3 (view and timestamp truncated in the signed bytes) by the `bytes` family; C09-r4m1
+  (Kauri `begin` keeps the senders of the last view) and C17-r4m3 (`IsSubSet` arguments swapped) by the whole-tree
+  `ktree` family as well as the node family. C11-r4m3 (the key is inserted before the verification and removed
+  on failure — sequentially equivalent) is reported through the call-order facts, not through a failing input.
 * C08-m2 (`signedBy` accepts multi-signer view signatures) was missed: the timeout injection got
   a `multi-viewsig` kind (the sender's genuine signature combined with another replica's).
 * C10-m3 (the RequestBlock handler converts the hash field with a slice-to-array conversion that
